@@ -107,6 +107,10 @@ struct Obj {
     /// while this object was `unloaded`, a write of the un-initialized installation saved a bucket
     /// file for the object's own bucket (finding installation-uninitialized-write-replaces-bucket)
     clobbered: bool,
+    /// the write was the `nth` index mutation (successful write, or remove of a stored key) of
+    /// the key's index bucket in this case (diagnostics only: names the position of a failing
+    /// object relative to the update-section capacity of its bucket)
+    nth: u32,
 }
 
 /// bucket of a key (xor of the first nine bytes, folded to a nibble) — written out here, not
@@ -131,6 +135,8 @@ struct Dyn {
     c: DynamicContainer,
     res: Arc<ResidencyContainer>,
     refm: HashMap<K9, Obj>,
+    /// removed keys: which index mutation of their bucket the remove was (diagnostics only)
+    removed: HashMap<K9, u32>,
 }
 struct Inst {
     dir: tempfile::TempDir,
@@ -173,6 +179,8 @@ struct H {
     st_blte_reads: u64,
     st_small_after_large: u64,
     last_total: u64,
+    /// index mutations per bucket in the current case (see `Obj::nth`)
+    bmut: [u32; 16],
 }
 
 fn consts() -> String {
@@ -200,7 +208,17 @@ impl H {
     fn fail(&mut self, s: &mut Session, sig: &str, msg: String) {
         if !self.failed {
             self.failed = true;
-            s.oracle_fail(sig, &msg, &self.trace);
+            if self.trace.len() > 400 {
+                // long (fill) cases: leave the pure observers (`q`, `count`, `marks` change no
+                // state on either side) out of the replay, except the failing line itself
+                let last = self.trace.len() - 1;
+                let t: Vec<String> = self.trace.iter().enumerate()
+                    .filter(|(i, l)| *i == last || !matches!(l.split(' ').next(), Some("q" | "count" | "marks")))
+                    .map(|(_, l)| l.clone()).collect();
+                s.oracle_fail(sig, &msg, &t);
+            } else {
+                s.oracle_fail(sig, &msg, &self.trace);
+            }
         }
     }
 
@@ -214,6 +232,7 @@ impl H {
             self.st_blte_reads = 0;
             self.st_small_after_large = 0;
             self.last_total = 0;
+            self.bmut = [0; 16];
             self.trace.push(line.to_string());
             let kind = toks.get(1).copied().unwrap_or("");
             let want = match kind {
@@ -233,7 +252,7 @@ impl H {
                     self.rt.block_on(r.initialize()).expect("residency init");
                     let res = Arc::new(r);
                     let c = new_dyn(&self.rt, dir.path(), res.clone());
-                    Mode::Dyn(Box::new(Dyn { dir, c, res, refm: HashMap::new() }))
+                    Mode::Dyn(Box::new(Dyn { dir, c, res, refm: HashMap::new(), removed: HashMap::new() }))
                 }
                 "inst" => {
                     let inst = new_inst(&self.rt, dir.path());
@@ -281,8 +300,25 @@ impl H {
         }
         self.last_total = total;
         let shape = payload_shape(&data);
-        refm.insert(k9(&key), Obj { data, later_writes: 0, reopened: false, shape, unloaded: false, clobbered: false });
+        let b = bucket_of(&k9(&key)) as usize;
+        self.bmut[b] += 1;
+        refm.insert(k9(&key), Obj { data, later_writes: 0, reopened: false, shape, unloaded: false, clobbered: false, nth: self.bmut[b] });
         key
+    }
+
+    fn absent(removed: &HashMap<K9, u32>, k: &K9) -> String {
+        let cap = (MIN_UPDATE_SECTION_SIZE / UPDATE_PAGE_SIZE) * ENTRIES_PER_PAGE;
+        match removed.get(k) {
+            Some(n) => format!("was removed (the successful remove was index mutation #{n} of bucket {} in this case; a bucket's update section holds {cap} entries in pages of {ENTRIES_PER_PAGE})", bucket_of(k)),
+            None => "was never written".to_string(),
+        }
+    }
+
+    /// where a written object sits in the history of its index bucket (for failure messages)
+    fn place(k: &K9, o: &Obj) -> String {
+        let cap = (MIN_UPDATE_SECTION_SIZE / UPDATE_PAGE_SIZE) * ENTRIES_PER_PAGE;
+        format!("its write was index mutation #{} of bucket {} in this case, {} later write(s) followed, reopened since: {}; a bucket's update section holds {} entries in pages of {}",
+            o.nth, bucket_of(k), o.later_writes, o.reopened, cap, ENTRIES_PER_PAGE)
     }
 
     fn when(o: &Obj) -> &'static str {
@@ -304,7 +340,8 @@ impl H {
                 let ck = md5_of(&data);
                 match self.rt.block_on(d.c.write(&ck, &data)) {
                     Ok(()) => {
-                        self.note_write(&mut d.refm, data);
+                        let k = self.note_write(&mut d.refm, data);
+                        d.removed.remove(&k9(&k));
                         "ok".to_string()
                     }
                     Err(e) => {
@@ -334,10 +371,11 @@ impl H {
                         self.note_read(o);
                         let c = err_class(e);
                         self.fail(s, &format!("dyn-read-written-key-{}-{}", &c[4..], Self::when(o)),
-                            format!("read({}) of a successfully written {}-byte object failed: {e}", hex::encode(k9(&key)), o.data.len()));
+                            format!("read({}) of a successfully written {}-byte object failed: {e} ({})", hex::encode(k9(&key)), o.data.len(), Self::place(&k9(&key), o)));
                     }
                     (Ok(n), None) => {
-                        self.fail(s, "dyn-read-absent-key-ok", format!("read({}) returned {n} bytes for a key that was never written or was removed", hex::encode(k9(&key))));
+                        let how = Self::absent(&d.removed, &k9(&key));
+                        self.fail(s, "dyn-read-absent-key-ok", format!("read({}) returned {n} bytes for a key that {how}", hex::encode(k9(&key))));
                     }
                     (Err(e), None) => {
                         if !matches!(e, StorageError::NotFound(_)) {
@@ -357,7 +395,8 @@ impl H {
                 match r {
                     Ok(b) => {
                         if b != want {
-                            self.fail(s, &format!("dyn-query-{}-key-{b}", if want { "written" } else { "absent" }), format!("query({}) = {b}, reference says {want}", hex::encode(k9(&key))));
+                            let pl = d.refm.get(&k9(&key)).map(|o| format!(" ({})", Self::place(&k9(&key), o))).unwrap_or_else(|| format!(" (the key {})", Self::absent(&d.removed, &k9(&key))));
+                            self.fail(s, &format!("dyn-query-{}-key-{b}", if want { "written" } else { "absent" }), format!("query({}) = {b}, reference says {want}{pl}", hex::encode(k9(&key))));
                         }
                         b.to_string()
                     }
@@ -370,7 +409,11 @@ impl H {
             ["rm", k] => {
                 let key = key16(k)?;
                 let r = self.rt.block_on(d.c.remove(&key));
-                d.refm.remove(&k9(&key));
+                if d.refm.remove(&k9(&key)).is_some() {
+                    let b = bucket_of(&k9(&key)) as usize;
+                    self.bmut[b] += 1;
+                    d.removed.insert(k9(&key), self.bmut[b]);
+                }
                 match r {
                     Ok(()) => "ok".into(),
                     Err(e) => {
@@ -472,7 +515,7 @@ impl H {
                             self.failed = false;
                         } else {
                             self.fail(s, &format!("inst-read-written-key-{}-{}-{}", &c[4..], o.shape, Self::when(o)),
-                                format!("read_file_by_encoding_key({}) of a successfully written {}-byte object failed: {e}", hex::encode(k9(&key)), o.data.len()));
+                                format!("read_file_by_encoding_key({}) of a successfully written {}-byte object failed: {e} ({})", hex::encode(k9(&key)), o.data.len(), Self::place(&k9(&key), o)));
                         }
                     }
                     (Ok(b), None) => {
@@ -501,7 +544,8 @@ impl H {
                         i.refm.retain(|_, o| !o.clobbered);
                         self.failed = false;
                     } else {
-                        self.fail(s, &format!("inst-has-{}-key-{b}", if want.is_some() { "written" } else { "absent" }), format!("has_encoding_key({}) = {b}", hex::encode(k9(&key))));
+                        let pl = want.as_ref().map(|o| format!(" ({})", Self::place(&k9(&key), o))).unwrap_or_default();
+                        self.fail(s, &format!("inst-has-{}-key-{b}", if want.is_some() { "written" } else { "absent" }), format!("has_encoding_key({}) = {b}{pl}", hex::encode(k9(&key))));
                     }
                 }
                 b.to_string()
@@ -1011,14 +1055,218 @@ fn run_lim(g: &mut Gen, rng: &mut Rng, random: usize, thorough: bool) {
     g.end("lim");
 }
 
+// ---------------------------------------------------------------- update-section boundaries
+//
+// The index key of an object is derived from its content (first nine bytes of the MD5 of its BLTE
+// image), so a history of ordinary writes spreads over the 16 index buckets and never fills one
+// bucket's update section (cap_pages x per_page pending entries), nor even one page of it.  The
+// fill cases below craft payloads whose key falls into ONE chosen bucket (by search: 1 payload in
+// 16 qualifies) and drive that bucket through the page and capacity boundaries of its update
+// section with container-level operations only; at every boundary ("station") the container /
+// installation is dropped and opened again BEFORE any further mutation of that bucket, and the
+// whole bucket is swept.
+
+/// a short payload (sometimes BLTE-shaped) whose index key lies in bucket `b` (`avoid = false`) or
+/// in any other bucket (`avoid = true`); never the same index key twice in a case
+fn craft_payload(rng: &mut Rng, b: u8, avoid: bool, seen: &mut std::collections::HashSet<K9>) -> (String, Vec<u8>, [u8; 16]) {
+    loop {
+        let mut v = match rng.below(24) {
+            0 => b"BLTE".to_vec(),
+            1 => b"BLTE\0\0\0\0N".to_vec(),
+            _ => vec![],
+        };
+        let n = rng.range(if v.is_empty() { 0 } else { 1 }, 14) as usize;
+        v.extend(rng.bytes(n));
+        let key = ekey_of(&v);
+        if (bucket_of(&k9(&key)) == b) != avoid && seen.insert(k9(&key)) {
+            return (if v.is_empty() { "-".into() } else { hex(&v) }, v, key);
+        }
+    }
+}
+
+struct FillSpec {
+    kind: &'static str,
+    /// numbers of index mutations of the target bucket (counted from its last explicit flush)
+    /// after which the store is reopened and swept, ascending
+    stations: Vec<usize>,
+    /// stations that are reached by a `rm` of an earlier key of the bucket instead of a write
+    rm_at: Vec<usize>,
+    /// per-mille chance of an unrelated operation after a mutation of the target bucket
+    noise: u64,
+    /// dyn only: some writes into the bucket, then an explicit `flush` of it, before the count
+    /// starts (the later merge then meets a non-empty sorted section)
+    pre_flush: bool,
+    label: &'static str,
+}
+
+fn station_name(m: usize) -> String {
+    let pp = ENTRIES_PER_PAGE;
+    let cap = (MIN_UPDATE_SECTION_SIZE / UPDATE_PAGE_SIZE) * pp;
+    // position in the update section after m mutations: the section is flushed by mutation
+    // cap+1, 2*cap+1, ... (which then is its first pending entry again)
+    let round = (m.max(1) - 1) / cap;
+    let pend = m - round * cap;
+    let what = if pend == cap { "section-full".to_string() }
+        else if pend + 1 == cap { "section-full-minus-1".to_string() }
+        else if round > 0 && pend == 1 { "section-overflowed-first-entry-after-flush".to_string() }
+        else if round > 0 && pend == 2 { "section-overflowed-second-entry".to_string() }
+        else if pend % pp == 0 { "page-full".to_string() }
+        else if pend % pp == 1 { "page-first-entry".to_string() }
+        else if pend % pp == pp - 1 { "page-full-minus-1".to_string() }
+        else { "inside-page".to_string() };
+    if round > 1 { format!("{what}-round{round}") } else { what }
+}
+
+fn fill_case(g: &mut Gen, rng: &mut Rng, sp: &FillSpec) {
+    let kind = sp.kind;
+    g.begin(kind);
+    let b = rng.below(16) as u8;
+    g.s.tally(&format!("fill.case.{kind}.{}", sp.label));
+    let mut seen: std::collections::HashSet<K9> = std::collections::HashSet::new();
+    // keys of the target bucket that are stored, in write order; removed ones; keys elsewhere
+    let mut mine: Vec<[u8; 16]> = vec![];
+    let mut gone: Vec<[u8; 16]> = vec![];
+    let mut others: Vec<[u8; 16]> = vec![];
+
+    fn put(g: &mut Gen, rng: &mut Rng, kind: &str, b: u8, avoid: bool, seen: &mut std::collections::HashSet<K9>) -> Option<[u8; 16]> {
+        let (p, _d, key) = craft_payload(rng, b, avoid, seen);
+        let r = if kind == "inst" { g.emit(format!("w {p} 0 0 {}", rng.below(2))) } else { g.emit(format!("w {p} 0 0")) };
+        if r.starts_with("ok") { g.keys.push(key); Some(key) } else { None }
+    }
+    fn get(g: &mut Gen, kind: &str, k: &[u8; 16]) {
+        if kind == "inst" { g.emit(format!("r {}", hex::encode(k))); } else { let l = g.len_of(k); g.emit(format!("r {} {}", hex::encode(k), l + 8)); }
+    }
+    fn reopen(g: &mut Gen, rng: &mut Rng, kind: &str) {
+        // inst: drop + open + initialize in one step, or as two (`open`, then `init`)
+        if kind == "inst" && rng.chance(1, 3) { g.emit("open".into()); g.emit("init".into()); } else { g.emit("reopen".into()); }
+    }
+
+    if sp.pre_flush && kind == "dyn" {
+        for _ in 0..rng.range(1, 30) { if let Some(k) = put(g, rng, kind, b, false, &mut seen) { mine.push(k); } }
+        if rng.chance(1, 2) { reopen(g, rng, kind); }
+        g.emit(format!("flush {b}"));
+    }
+    let last = sp.stations.last().copied().unwrap_or(0);
+    let mut m = 0usize;
+    while m < last {
+        m += 1;
+        if sp.rm_at.contains(&m) && kind == "dyn" && !mine.is_empty() {
+            // remove a key of this bucket: the newest, the oldest, or any
+            let i = match rng.below(4) { 0 => mine.len() - 1, 1 => 0, _ => rng.below(mine.len() as u64) as usize };
+            let k = mine.remove(i);
+            g.emit(format!("rm {}", hex::encode(k)));
+            g.keys.retain(|x| k9(x) != k9(&k));
+            gone.push(k);
+            g.s.tally("fill.boundary_crossed_by.rm");
+        } else {
+            if let Some(k) = put(g, rng, kind, b, false, &mut seen) { mine.push(k); }
+            if sp.stations.contains(&m) { g.s.tally("fill.boundary_crossed_by.write"); }
+        }
+        if sp.stations.contains(&m) {
+            g.s.tally(&format!("fill.station.{}", station_name(m)));
+            reopen(g, rng, kind);
+            // sweep: every key of the bucket by query (newest first), the newest 24 (more than a
+            // page), the oldest 3 and 16 others by read, removed keys, the entry count
+            for k in mine.iter().rev().chain(gone.iter().rev()) { g.emit(format!("q {}", hex::encode(k))); }
+            let n = mine.len();
+            let mut ix: Vec<usize> = (n.saturating_sub(24)..n).rev().collect();
+            ix.extend(0..n.min(3));
+            for _ in 0..16 { if n > 0 { ix.push(rng.below(n as u64) as usize); } }
+            for i in ix { get(g, kind, &mine[i].clone()); }
+            for k in gone.iter().rev().take(8) { get(g, kind, &k.clone()); }
+            if let Some(k) = others.last().copied() { get(g, kind, &k); }
+            if kind == "dyn" { g.emit("count".into()); }
+            continue;
+        }
+        if rng.below(1000) < sp.noise {
+            match rng.below(10) {
+                0..=3 => { if let Some(k) = put(g, rng, kind, b, true, &mut seen) { others.push(k); } }
+                4 | 5 => { let k = if !mine.is_empty() && rng.chance(2, 3) { *rng.pick(&mine) } else { g.pick_key(rng) }; get(g, kind, &k); }
+                6 => { let k = g.pick_key(rng); g.emit(format!("q {}", hex::encode(k))); }
+                7 => {
+                    if kind == "dyn" { let ob = (b + 1 + rng.below(15) as u8) % 16; g.emit(format!("flush {ob}")); } else { g.emit("init".into()); }
+                }
+                8 => { reopen(g, rng, kind); if let Some(k) = mine.last().copied() { get(g, kind, &k); } }
+                _ => {
+                    if kind == "dyn" && !others.is_empty() {
+                        let k = others.swap_remove(rng.below(others.len() as u64) as usize);
+                        g.emit(format!("rm {}", hex::encode(k)));
+                        g.emit(format!("q {}", hex::encode(k)));
+                        g.keys.retain(|x| k9(x) != k9(&k));
+                    }
+                }
+            }
+        }
+    }
+    // final sweep: every key written in the case, every removed key of the bucket
+    let ks = g.keys.clone();
+    for k in &ks { get(g, kind, k); g.emit(format!("q {}", hex::encode(k))); }
+    for k in &gone { get(g, kind, k); g.emit(format!("q {}", hex::encode(k))); }
+    if kind == "dyn" { g.emit("marks".into()); g.emit("count".into()); }
+    g.end(kind);
+}
+
+/// stations around the page boundaries of the first `pages` pages and around the capacity of the
+/// update section (`rounds` overflows)
+fn run_fill(g: &mut Gen, rng: &mut Rng, thorough: bool) {
+    let pp = ENTRIES_PER_PAGE;
+    let cap = (MIN_UPDATE_SECTION_SIZE / UPDATE_PAGE_SIZE) * pp;
+    // ---- page boundaries (cheap: up to four pages of one bucket)
+    let page_cases = if thorough { 60 } else { 8 };
+    for c in 0..page_cases {
+        let kind = if c % 3 == 2 { "inst" } else { "dyn" };
+        let mut st: Vec<usize> = vec![];
+        for p in 1..=rng.range(1, 4) as usize {
+            for d in [-1i64, 0, 1, 2] {
+                if rng.chance(if d == 1 { 9 } else { 5 }, 10) { st.push((p as i64 * pp as i64 + d) as usize); }
+            }
+        }
+        if st.is_empty() { st.push(pp + 1); }
+        st.sort_unstable(); st.dedup();
+        let rm_at: Vec<usize> = st.iter().copied().filter(|_| rng.chance(1, 4)).collect();
+        fill_case(g, rng, &FillSpec { kind, stations: st, rm_at, noise: if c % 2 == 0 { 0 } else { 250 }, pre_flush: c % 4 == 3, label: "pages" });
+    }
+    // ---- capacity of the update section: cap-1, cap, cap+1 (the mutation that finds the section
+    // full: implicit flush, then retry), cap+2; each followed at once by a reopen
+    let around = |c: usize| vec![c - 1, c, c + 1, c + 2];
+    // 1. DynamicContainer, nothing but writes into the one bucket
+    fill_case(g, rng, &FillSpec { kind: "dyn", stations: around(cap), rm_at: vec![], noise: 0, pre_flush: false, label: "capacity" });
+    // 2. Installation, light noise
+    fill_case(g, rng, &FillSpec { kind: "inst", stations: around(cap), rm_at: vec![], noise: 20, pre_flush: false, label: "capacity" });
+    // 3. DynamicContainer with a flushed prefix, noise, earlier removes, and boundaries reached
+    // by a remove (always the overflowing mutation cap+1, the others by chance)
+    {
+        let mut st = around(cap);
+        let mut rm_at = vec![cap + 1];
+        for x in [cap - 1, cap, cap + 2] { if rng.chance(1, 3) { rm_at.push(x); } }
+        for _ in 0..3 { let x = rng.range(2, cap as u64 - 2) as usize; rm_at.push(x); if rng.chance(1, 2) { st.push(x); } }
+        st.sort_unstable(); st.dedup();
+        fill_case(g, rng, &FillSpec { kind: "dyn", stations: st, rm_at, noise: 30, pre_flush: true, label: "capacity-rm" });
+    }
+    if thorough {
+        // second overflow, by write and by remove; more buckets
+        let twice = |c: usize| vec![c, c + 1, 2 * c - 1, 2 * c, 2 * c + 1, 2 * c + 2];
+        fill_case(g, rng, &FillSpec { kind: "dyn", stations: twice(cap), rm_at: vec![2 * cap + 1], noise: 10, pre_flush: false, label: "capacity-twice" });
+        fill_case(g, rng, &FillSpec { kind: "inst", stations: twice(cap), rm_at: vec![], noise: 10, pre_flush: false, label: "capacity-twice" });
+        for c in 0..6 {
+            let kind = if c % 2 == 0 { "dyn" } else { "inst" };
+            let mut st = around(cap);
+            for _ in 0..2 { st.push(rng.range(1, cap as u64 - 2) as usize); }
+            st.sort_unstable(); st.dedup();
+            let rm_at: Vec<usize> = st.iter().copied().filter(|_| rng.chance(1, 3)).collect();
+            fill_case(g, rng, &FillSpec { kind, stations: st, rm_at, noise: 40, pre_flush: c % 4 == 0, label: "capacity-mixed" });
+        }
+    }
+}
+
 fn main() {
     let args = Args::parse();
     quiet_panics();
     let mut s = Session::new(&args.out);
-    s.rule = "seeded histories on the real DynamicContainer (with a ResidencyContainer), Installation and ArchiveManager, one temp dir per case: 1..14 writes whose sizes follow a programme (large-then-small, slowly growing, equal, file exactly doubling +-1, empty payloads between others, one big then many tiny, random; every 9th case 20-70 KB payloads) with payload classes random / constant fill / 'BLTE'+garbage / 'BLTE' at 0x1E / whole valid BLTE file (N, Z, LZ4) / image of a local entry (30-byte header + BLTE) / the 49-byte witness shape; interleaved reads of earlier keys (own tail or foreign tail after the 9-byte prefix, absent keys; buffer = len, len-1, 0, len/2, len+64), queries, removes, flush/flushall, reopen (drop + new + open/initialize), residency-mark and entry counts; final sweep reads every key; arch stream: modes N/Z/LZ4, read_content / read_raw of exact entries, header-less BLTE slice, short slices, ranges beyond the mapping, unknown archive, reopen; non-trivial = the case read a key written before a later write, or after a reopen, or a BLTE-shaped payload; distinct = canonical request text of the case".into();
+    s.rule = "seeded histories on the real DynamicContainer (with a ResidencyContainer), Installation and ArchiveManager, one temp dir per case: 1..14 writes whose sizes follow a programme (large-then-small, slowly growing, equal, file exactly doubling +-1, empty payloads between others, one big then many tiny, random; every 9th case 20-70 KB payloads) with payload classes random / constant fill / 'BLTE'+garbage / 'BLTE' at 0x1E / whole valid BLTE file (N, Z, LZ4) / image of a local entry (30-byte header + BLTE) / the 49-byte witness shape; interleaved reads of earlier keys (own tail or foreign tail after the 9-byte prefix, absent keys; buffer = len, len-1, 0, len/2, len+64), queries, removes, flush/flushall, reopen (drop + new + open/initialize), residency-mark and entry counts; final sweep reads every key; fill cases (dyn and inst): payloads crafted by search so that their index key (MD5-derived) falls into ONE chosen bucket, driving that bucket's update section through its page boundaries (8 cases: 1-4 pages, stations at k*per_page-1, k*per_page, +1, +2) and its capacity (3 cases: cap-1, cap, cap+1 = the mutation that finds the section full and flushes implicitly, cap+2; pure writes on a DynamicContainer, writes on an Installation, and a DynamicContainer case with a flushed prefix, noise in other buckets, mid-fill reopens and the overflowing mutation being a remove; thorough also the second overflow at 2*cap+1) - at every station the store is dropped and opened again BEFORE any further mutation of the bucket, then every key of the bucket is queried (newest first), the newest 24 / oldest 3 / 16 random ones and the removed ones are read, entry_count is compared, and the case ends with a full read+query sweep; arch stream: modes N/Z/LZ4, read_content / read_raw of exact entries, header-less BLTE slice, short slices, ranges beyond the mapping, unknown archive, reopen; non-trivial = the case read a key written before a later write, or after a reopen, or a BLTE-shaped payload; distinct = canonical request text of the case".into();
     let mut rng = Rng::new(args.seed);
     let rt = tokio::runtime::Builder::new_current_thread().enable_all().build().expect("runtime");
-    let h = H { mode: Mode::None, rt, trace: vec![], failed: false, st_hist_reads: 0, st_reopen_reads: 0, st_blte_reads: 0, st_small_after_large: 0, last_total: 0 };
+    let h = H { mode: Mode::None, rt, trace: vec![], failed: false, st_hist_reads: 0, st_reopen_reads: 0, st_blte_reads: 0, st_small_after_large: 0, last_total: 0, bmut: [0; 16] };
     s.extra.insert("constants".into(), serde_json::json!({"cap_pages": MIN_UPDATE_SECTION_SIZE / UPDATE_PAGE_SIZE, "per_page": ENTRIES_PER_PAGE, "local_header_size": LOCAL_HEADER_SIZE}));
 
     if let Some(p) = &args.replay {
@@ -1041,6 +1289,7 @@ fn main() {
         run_store(&mut g, &mut rng, "inst", if t { 900 } else { 110 }, t);
         run_arch(&mut g, &mut rng, if t { 700 } else { 90 });
         run_lim(&mut g, &mut rng, if t { 60 } else { 10 }, t);
+        run_fill(&mut g, &mut rng, t);
     }
     s.finish();
 }
